@@ -1,8 +1,234 @@
-(* C16 - label, tag, name and data validation holds on every construction path. *)
+(* C16 - label, tag, name and data validation holds on every construction path.
+   Only statements; each is closed by `exact` of a lemma from Base/RegexSound.v, Proofs/Validate16.v or
+   Proofs/Validate16Misc.v.  The model (Model/Labels16.v) is instantiated with the tables REGENERATED
+   from fim/slivers/*.py and from the running interpreter (Gen/LabelValidators.v, Gen/UnicodeClasses.v);
+   the specification is Model/Labels16Spec.v: `in_domain k s` = s is in the language (declarative `lang`,
+   whole string) of field k's pattern and satisfies k's range predicate; tags / names / sizes are in
+   addition pinned by hand (tag_char, name_doc, jd_doc, boot_doc_limit). *)
 From Coq Require Import List ZArith NArith Bool String.
-From FIM Require Import Base.Str Base.Regex Base.RegexSound Model.Labels16Types Gen.UnicodeClasses Gen.LabelValidators Model.Labels16 Proofs.Validate16.
+From FIM Require Import Base.Str Base.Regex Base.RegexSound Model.Labels16Types Gen.UnicodeClasses Gen.LabelValidators
+  Model.Labels16 Model.Labels16Spec Proofs.Validate16 Proofs.Validate16Misc.
 Import ListNotations.
 
+(* ---- the tie's static part: the translator recognised every construct; every call site matches the whole string ---- *)
 Theorem C16_translated : lv_gen_ok = true /\ uc_ok = true.
 Proof. exact lv_gen_ok_true. Qed.
 Print Assumptions C16_translated.
+
+Theorem C16_every_call_site_matches_whole_string :
+  label_scalar_mode = Full /\ label_list_mode = Full /\ tag_mode = Full /\
+  forallb (fun x => mmode_eqb (snd (snd x)) Full) name_rules = true.
+Proof. exact modes_full. Qed.
+Print Assumptions C16_every_call_site_matches_whole_string.
+
+(* ---- the regex engine ---- *)
+Theorem C16_matcher_decides_language : forall catf s r, rmatch catf r s = true <-> lang catf r s.
+Proof. exact rmatch_spec. Qed.
+Print Assumptions C16_matcher_decides_language.
+
+Theorem C16_fullmatch_is_membership : forall catf r s, py_match catf Full r s = true <-> lang catf r s.
+Proof. exact py_fullmatch_spec. Qed.
+Print Assumptions C16_fullmatch_is_membership.
+
+(* what the pre-fix idiom re.match('^' + r + '$') accepts: members, and members followed by one newline *)
+Theorem C16_dollar_idiom : forall catf r s,
+  py_match catf Dollar r s = true <-> lang catf r s \/ exists t, s = t ++ [10%N] /\ lang catf r t.
+Proof. exact py_dollar_spec. Qed.
+Print Assumptions C16_dollar_idiom.
+
+Theorem C16_dollar_idiom_admits_trailing_newline : forall catf r t,
+  lang catf r t -> ~ lang catf r (t ++ [10%N]) ->
+  py_match catf Dollar r (t ++ [10%N]) = true /\ py_match catf Full r (t ++ [10%N]) = false.
+Proof. exact py_dollar_accepts_trailing_newline. Qed.
+Print Assumptions C16_dollar_idiom_admits_trailing_newline.
+
+Theorem C16_unanchored_idiom : forall catf r s,
+  py_match catf Prefix r s = true <-> exists p q, s = p ++ q /\ lang catf r p.
+Proof. exact py_prefix_spec. Qed.
+Print Assumptions C16_unanchored_idiom.
+
+(* r{m,n} means "k copies for some m <= k <= n"; for a character class: length and membership *)
+Theorem C16_bounded_repeat : forall catf r m n s, (m <= n)%nat ->
+  (lang catf (rep r m (Some n)) s <-> exists k, (m <= k <= n)%nat /\ lang catf (pow r k) s).
+Proof. exact lang_rep_bounded. Qed.
+Print Assumptions C16_bounded_repeat.
+
+Theorem C16_bounded_repeat_of_class : forall catf neg it m n s, (m <= n)%nat ->
+  (lang catf (rep (Cls neg it) m (Some n)) s <->
+   (m <= List.length s <= n)%nat /\ forallb (cls_in catf neg it) s = true).
+Proof. exact lang_rep_cls. Qed.
+Print Assumptions C16_bounded_repeat_of_class.
+
+(* ---- Labels: acceptance = membership in the documented domain, scalar and list, forgiving or not ---- *)
+Theorem C16_accept_iff_domain : forall forgiving st k v,
+  mem_str k label_fields = true -> is_strs v = true ->
+  (snd (set_one forgiving st (k, v)) = None <-> Forall (in_domain k) (elems v)).
+Proof. exact accept_iff_domain. Qed.
+Print Assumptions C16_accept_iff_domain.
+
+Theorem C16_accepted_value_is_the_one_stored : forall forgiving st k v,
+  mem_str k label_fields = true -> snd (set_one forgiving st (k, v)) = None ->
+  fst (set_one forgiving st (k, v)) = lset st k v.
+Proof. exact accepted_is_stored. Qed.
+Print Assumptions C16_accepted_value_is_the_one_stored.
+
+Theorem C16_rejected_value_changes_nothing : forall forgiving st kv,
+  snd (set_one forgiving st kv) <> None -> fst (set_one forgiving st kv) = st.
+Proof. exact rejected_unchanged. Qed.
+Print Assumptions C16_rejected_value_changes_nothing.
+
+Theorem C16_range_predicate_meaning : forall rk s, range_check rk s = None <-> range_spec rk s.
+Proof. exact range_check_spec. Qed.
+Print Assumptions C16_range_predicate_meaning.
+
+(* _set_fields keeps "every field is None or documented" even when it raises half way *)
+Theorem C16_set_fields_invariant : forall forgiving kws st,
+  labels_inv st -> labels_inv (fst (set_fields forgiving st kws)).
+Proof. exact set_fields_inv. Qed.
+Print Assumptions C16_set_fields_invariant.
+
+(* constructor, JSONField.update of a constructed object, from_json *)
+Theorem C16_every_entry_point : forall e st, run_entry e = Ok st -> labels_inv st /\ labels_wf st.
+Proof. exact every_entry_point. Qed.
+Print Assumptions C16_every_entry_point.
+
+(* any chain constructor/from_json followed by any number of updates *)
+Theorem C16_every_reachable_object : forall st, reachable st -> labels_inv st /\ labels_wf st.
+Proof. exact reachable_inv. Qed.
+Print Assumptions C16_every_reachable_object.
+
+Theorem C16_stored_values_in_domain : forall st k v,
+  labels_inv st -> lget st k = Some v -> is_strs v = true /\ Forall (in_domain k) (elems v).
+Proof. exact stored_values_in_domain. Qed.
+Print Assumptions C16_stored_values_in_domain.
+
+(* whatever was accepted encodes (to_dict/to_json) and decodes (from_json) to the same object, not rejected *)
+Theorem C16_accepted_recodes : forall st, labels_inv st -> labels_wf st -> labels_recode st = Ok st.
+Proof. exact accepted_recodes. Qed.
+Print Assumptions C16_accepted_recodes.
+
+Theorem C16_entry_point_result_recodes : forall e st, run_entry e = Ok st -> labels_recode st = Ok st.
+Proof. exact entry_point_recodes. Qed.
+Print Assumptions C16_entry_point_result_recodes.
+
+(* the documented boundary values (Model/Labels16Spec.v boundary_table), scalar and one-element list *)
+Theorem C16_documented_boundaries :
+  forallb (fun x => Bool.eqb (scalar_accepted (fst (fst x)) (snd (fst x))) (snd x) &&
+                    Bool.eqb (list_accepted (fst (fst x)) (snd (fst x))) (snd x)) boundary_table = true.
+Proof. exact boundaries_hold. Qed.
+Print Assumptions C16_documented_boundaries.
+
+(* ---- Tags ---- *)
+Theorem C16_tags_accept_iff_domain : forall args out,
+  tags_ctor args = Some out <->
+  Forall tag_in_domain (flat_map targ_items args) /\ map TStr out = flat_map targ_items args.
+Proof. exact tags_accept_iff_domain. Qed.
+Print Assumptions C16_tags_accept_iff_domain.
+
+Theorem C16_tags_recode : forall args out, tags_ctor args = Some out -> tags_ctor [TA_many (map TStr out)] = Some out.
+Proof. exact tags_recode. Qed.
+Print Assumptions C16_tags_recode.
+
+Theorem C16_tag_domain_pinned : forall s,
+  tag_accepts s = true <-> (1 <= List.length s <= 255)%nat /\ forallb tag_char s = true.
+Proof. exact tag_domain_pinned. Qed.
+Print Assumptions C16_tag_domain_pinned.
+
+(* ---- names, per sliver class ---- *)
+Theorem C16_set_name_iff_language : forall cls r m s, lookup cls name_rules = Some (r, m) ->
+  (set_name cls (SStr s) = Ok s <-> re_lang r s).
+Proof. exact set_name_iff_lang. Qed.
+Print Assumptions C16_set_name_iff_language.
+
+Theorem C16_names_domain_pinned : forall cls lo hi extra, In (cls, (lo, hi, extra)) name_doc ->
+  forall s, set_name cls (SStr s) = Ok s <-> (lo <= List.length s <= hi)%nat /\ forallb (name_char extra) s = true.
+Proof. exact names_domain_pinned. Qed.
+Print Assumptions C16_names_domain_pinned.
+
+Theorem C16_name_classes_covered :
+  forallb (fun x => existsb (fun d => str_eqb (fst x) (fst d)) name_doc) name_rules = true /\
+  forallb (fun d => existsb (fun x => str_eqb (fst x) (fst d)) name_rules) name_doc = true.
+Proof. exact name_rules_covered. Qed.
+Print Assumptions C16_name_classes_covered.
+
+Theorem C16_set_name_stores_argument : forall cls v s, set_name cls v = Ok s -> v = SStr s.
+Proof. exact set_name_stores_argument. Qed.
+Print Assumptions C16_set_name_stores_argument.
+
+(* ---- boot script ---- *)
+Theorem C16_boot_script : forall s, set_boot_script (SStr s) = Ok (Some s) <-> (List.length s < boot_doc_limit)%nat.
+Proof. exact boot_script_domain. Qed.
+Print Assumptions C16_boot_script.
+
+Theorem C16_boot_script_stored : forall v r, set_boot_script v = Ok r ->
+  match v with SStr s => r = Some s /\ (List.length s < boot_doc_limit)%nat | SNone => r = None | SOther => False end.
+Proof. exact boot_script_stores_argument. Qed.
+Print Assumptions C16_boot_script_stored.
+
+(* ---- opaque JSON data: string path, object path, and re-acceptance of what was stored ---- *)
+Theorem C16_jsondata_string_path : forall cls mx s valid, In (cls, mx) jd_doc ->
+  (jd_new cls (JD_str s valid) = Ok s <-> (List.length s <= mx)%nat /\ valid = true).
+Proof. exact jd_str_domain. Qed.
+Print Assumptions C16_jsondata_string_path.
+
+Theorem C16_jsondata_object_path : forall cls mx t, In (cls, mx) jd_doc ->
+  (jd_new cls (JD_obj (Some t)) = Ok t <-> (List.length t <= mx)%nat).
+Proof. exact jd_obj_domain. Qed.
+Print Assumptions C16_jsondata_object_path.
+
+Theorem C16_jsondata_stored : forall cls mx d t, In (cls, mx) jd_doc -> jd_new cls d = Ok t ->
+  (List.length t <= mx)%nat /\
+  match d with JD_str s valid => t = s /\ valid = true | JD_obj o => o = Some t | JD_none => t = empty_obj_text end.
+Proof. exact jd_stored. Qed.
+Print Assumptions C16_jsondata_stored.
+
+Theorem C16_jsondata_reaccepted : forall cls mx d t, In (cls, mx) jd_doc -> jd_new cls d = Ok t ->
+  jd_new cls (JD_str t true) = Ok t.
+Proof. exact jd_reaccepted. Qed.
+Print Assumptions C16_jsondata_reaccepted.
+
+Theorem C16_jsondata_classes_covered :
+  forallb (fun x => existsb (fun d => str_eqb (fst x) (fst d)) jd_doc) jd_max = true.
+Proof. exact jd_max_covered. Qed.
+Print Assumptions C16_jsondata_classes_covered.
+
+(* ---- Capacities ---- *)
+Theorem C16_capacity_accept_iff : forall forgiving st k v, mem_str k cap_field_names = true ->
+  (snd (cap_set_one forgiving st (k, v)) = None <-> cval_ok v).
+Proof. exact caps_accept_iff. Qed.
+Print Assumptions C16_capacity_accept_iff.
+
+Theorem C16_capacities_invariant : forall forgiving kws st, caps_inv st -> caps_inv (fst (cap_set_fields forgiving st kws)).
+Proof. exact cap_set_fields_inv. Qed.
+Print Assumptions C16_capacities_invariant.
+
+Theorem C16_capacities_constructed : forall forgiving kws st, caps_ctor forgiving kws = Ok st -> caps_inv st.
+Proof. exact caps_ctor_inv. Qed.
+Print Assumptions C16_capacities_constructed.
+
+(* ---- non-vacuity ---- *)
+Example C16_nonvacuous_labels :
+  match run_entry (E_update [(S"vlan", LStr (S"100")); (S"mac", LList [S"00:11:22:33:44:55"; S"aa:bb:cc:dd:ee:ff"])]
+                            [(S"vlan_range", LStr (S"100-200")); (S"numa", LStr (S"-1"))]) with
+  | Ok st => lget st (S"vlan_range") = Some (LStr (S"100-200")) /\ lget st (S"vlan") = Some (LStr (S"100")) /\
+             labels_recode st = Ok st
+  | Err _ => False
+  end.
+Proof. vm_compute. repeat split. Qed.
+
+Example C16_nonvacuous_rejections :
+  run_entry (E_ctor [(S"vlan", LStr (S"123" ++ [10%N]))]) = Err ELabel /\
+  run_entry (E_ctor [(S"vlan", LList [S"1"; S"4097"])]) = Err ELabel /\
+  run_entry (E_from_json [(S"numa", LStr (S"x"))]) = Err EValue /\
+  run_entry (E_from_json [(S"zz", LStr (S"x"))]) = Ok labels_init /\
+  run_entry (E_ctor [(S"zz", LStr (S"x"))]) = Err ELabel.
+Proof. vm_compute. repeat split. Qed.
+
+Example C16_nonvacuous_misc :
+  tags_ctor [TA_one (TStr (S"a-b")); TA_many [TStr (S"c_d")]] = Some [S"a-b"; S"c_d"] /\
+  tags_ctor [TA_one (TStr (S"a b"))] = None /\
+  set_name (S"NodeSliver") (SStr (S"n1")) = Ok (S"n1") /\ set_name (S"NodeSliver") (SStr (S"n")) = Err EValue /\
+  set_name (S"InterfaceSliver") (SStr (S"n")) = Ok (S"n") /\
+  jd_new (S"UserData") (JD_str (S"{}") true) = Ok (S"{}") /\
+  caps_ctor false [(S"cpu", CV_int (-1))] = Err EAssert.
+Proof. vm_compute. repeat split. Qed.
